@@ -185,154 +185,177 @@ def run(ctx):
     jobs = []
     bind = {}
     tabs_all = {}
-    # ---------------- ChaseLev
-    cl_step = P12.mc_consts(Cap0=2, MaxCap=8, Start=2, MaxPush=4, MaxPop=4, MaxSteal=4, NThieves=1, StaleCapOK=True)
-    tab, a, n = step_bind(ctx, 'ChaseLev', 'deque', ['g2;push40,steal,push41,steal;push1,push2,push3,pop;steal,steal'], cl_step)
-    bind['ChaseLev'] = (a, n); tabs_all['ChaseLev'] = tab
-    ctx.binding.append({'spec': 'ChaseLev', 'orders_extracted': {k: sorted(v) for k, v in tab.items() if v}})
-    cl_ra = P12.mc_consts(Weak=True, Ord='<-OrdX', Cap0=2, MaxCap=2, Start=2, MaxPush=2, MaxPop=1, MaxSteal=2, StaleCapOK=True)
-    mod, amb = ord_module('ChaseLev', tab)
-    INV_CL = ['NoDataRace', 'Conservation', 'ConservedAtEnd']
-    jobs.append(lambda: tlc_mc(ctx, 'ra_chaselev', 'ChaseLev_RA', cl_ra, invariants=INV_CL, view='mcview', constraints=['MsgBound5'], workers=6, extra_files={'ChaseLev_RA.tla': mod}))
-    jobs.append(lambda: tlc_mc(ctx, 'ra_chaselev_start0', 'ChaseLev_RA', dict(cl_ra, Start=0, MaxPop=2, MaxSteal=1), invariants=INV_CL, view='mcview', constraints=['MsgBound5'], workers=6,
-                               extra_files={'ChaseLev_RA.tla': mod}))
-    jobs.append(lambda: tlc_mc(ctx, 'ra_toggle_chaselev_bottom_rlx', 'ChaseLev_RA', cl_ra, invariants=INV_CL, view='mcview', constraints=['MsgBound5'], workers=4, expect='violation',
-                               extra_files={'ChaseLev_RA.tla': toggle_module('ChaseLev', tab, {'pu_bot': 'rlx'})}))
-    jobs.append(lambda: tlc_mc(ctx, 'ra_toggle_chaselev_no_sc', 'ChaseLev_RA', cl_ra, invariants=INV_CL, view='mcview', constraints=['MsgBound5'], workers=4, expect='violation',
-                               extra_files={'ChaseLev_RA.tla': toggle_module('ChaseLev', tab, {'po_bs': 'rel', 'po_t2': 'acq'})}))
-    # ---------------- Seqlock
-    sl_step = P14.mc_consts(Slots=2, NW=2, CW=2, NWriters=1, NReaders=1, MaxWrites=4, MaxLoads=4)
-    tabs, a, n = step_bind(ctx, 'Seqlock', 'seqlock', ['s2b16;;store2,update10,store3;load,load'], sl_step)
-    bind['Seqlock'] = (a, n); tabs_all['Seqlock'] = tabs
-    ctx.binding.append({'spec': 'Seqlock', 'orders_extracted': {k: sorted(v) for k, v in tabs.items() if v}})
-    mods, _ = ord_module('Seqlock', tabs)
-    sl_ra = P14.mc_consts(Weak=True, Ord='<-OrdX', Slots=2, NW=2, CW=2, MaxWrites=2, MaxLoads=1)
-    jobs.append(lambda: tlc_mc(ctx, 'ra_seqlock', 'Seqlock_RA', sl_ra, invariants=['NoTornLoad'], view='mcview', constraints=['MsgBound5'], workers=6, extra_files={'Seqlock_RA.tla': mods}, tmo=1200))
-    jobs.append(lambda: tlc_mc(ctx, 'ra_seqlock_1slot', 'Seqlock_RA', dict(sl_ra, Slots=1, MaxWrites=1), invariants=['NoTornLoad'], view='mcview', constraints=['MsgBound5'], workers=6,
-                               extra_files={'Seqlock_RA.tla': mods}, tmo=1200))
-    jobs.append(lambda: tlc_mc(ctx, 'ra_toggle_seqlock_nofence', 'Seqlock_RA', sl_ra, invariants=['NoTornLoad'], view='mcview', constraints=['MsgBound5'], workers=4, expect='violation',
-                               extra_files={'Seqlock_RA.tla': toggle_module('Seqlock', tabs, {'rd_fence': 'none'})}, tmo=1200))
-    jobs.append(lambda: tlc_mc(ctx, 'ra_toggle_seqlock_release_rlx', 'Seqlock_RA', sl_ra, invariants=['NoTornLoad'], view='mcview', constraints=['MsgBound5'], workers=4, expect='violation',
-                               extra_files={'Seqlock_RA.tla': toggle_module('Seqlock', tabs, {'sd_fence': 'none', 'rl_st': 'rlx'})}, tmo=1200))
-    # ---------------- LeftRight
-    lr_step = P13.mc_consts(NWriters=1, NReaders=1, MaxUpdates=4, MaxReads=4)
-    tabl, a, n = step_bind(ctx, 'LeftRight', 'leftright', ['lr;;update10,update10;load,load'], lr_step)
-    bind['LeftRight'] = (a, n); tabs_all['LeftRight'] = tabl
-    ctx.binding.append({'spec': 'LeftRight', 'orders_extracted': {k: sorted(v) for k, v in tabl.items() if v}})
-    modl, _ = ord_module('LeftRight', tabl)
-    lr_ra = P13.mc_consts(Weak=True, Ord='<-OrdX', MaxUpdates=1, MaxReads=1)
-    jobs.append(lambda: tlc_mc(ctx, 'ra_leftright', 'LeftRight_RA', lr_ra, invariants=['NoDataRace', 'NoMixture'], view='mcview', constraints=['MsgBound5'], workers=6,
-                               extra_files={'LeftRight_RA.tla': modl}, tmo=1500))
-    jobs.append(lambda: tlc_mc(ctx, 'ra_toggle_leftright_depart_rlx', 'LeftRight_RA', lr_ra, invariants=['NoDataRace', 'NoMixture'], view='mcview', constraints=['MsgBound5'], workers=4,
-                               expect='violation', extra_files={'LeftRight_RA.tla': toggle_module('LeftRight', tabl, {'rd_dep': 'rlx', 'up_unlock': 'rlx'})}, tmo=1500))
-    # ---------------- VyukovBounded
-    vb_step = QM.vy_consts(Cap=2, MaxPush=4, MaxPop=4, AllowWeak=True)
-    tabv, a, n = step_bind(ctx, 'VyukovBounded', 'queue_bounded', ['vyu2/-/I;;push1,push2,wpush3;pop,wpop,pop'], dict(vb_step, AbsStep='<-QStep'))
-    bind['VyukovBounded'] = (a, n); tabs_all['VyukovBounded'] = tabv
-    ctx.binding.append({'spec': 'VyukovBounded', 'orders_extracted': {k: sorted(v) for k, v in tabv.items() if v}})
-    modv, _ = ord_module('VyukovBounded', tabv)
-    vb_ra = QM.vy_consts(Weak=True, Ord='<-OrdX', MaxPush=2 if not q else 1, MaxPop=1)
-    jobs.append(lambda: tlc_mc(ctx, 'ra_vyukov', 'VyukovBounded_RA', vb_ra, invariants=['NoDataRace', 'Conservation'], view='mcview', constraints=['MsgBound5'], workers=6,
-                               extra_files={'VyukovBounded_RA.tla': modv}, tmo=1500))
-    jobs.append(lambda: tlc_mc(ctx, 'ra_toggle_vyukov_publish_rlx', 'VyukovBounded_RA', vb_ra, invariants=['NoDataRace', 'Conservation'], view='mcview', constraints=['MsgBound5'], workers=4,
-                               expect='violation', extra_files={'VyukovBounded_RA.tla': toggle_module('VyukovBounded', tabv, {'u_pub': 'rlx'})}, tmo=1500))
-    # ---------------- Ramalhete (step binding: index words and entries exactly)
-    build(['queue_ram'])
-    keepr = lambda r: r.get('fn', '').startswith('ramalhete_queue::') and 'node::' not in r.get('fn', '')
-    tabr, a, n = step_bind(ctx, 'Ramalhete', 'queue_ram', ['ram10/nebr0/P;;push1,push2,pop;pop,push3'], QM.rq_consts(Progs='<-ProgStep', NNodes=7), pb=2, max_exec=100 if q else 2000,
-                           keep=keepr)
-    bind['Ramalhete'] = (a, n); tabs_all['Ramalhete'] = tabr
-    ctx.binding.append({'spec': 'Ramalhete', 'orders_extracted': {k: sorted(v) for k, v in tabr.items() if v}})
-    modr, _ = ord_module('Ramalhete', tabr)
-    INV_RW = ['NoDataRace', 'Conservation', 'Ownership', 'ConservedAtEnd']
-    rq_ra = QM.rq_consts(Weak=True, Ord='<-OrdX', Progs='<-ProgPP')
-    jobs.append(lambda: tlc_mc(ctx, 'ra_ramalhete', 'Ramalhete_RA', rq_ra, invariants=INV_RW, view='mcview', constraints=['MsgBound5'], workers=6, extra_files={'Ramalhete_RA.tla': modr}, tmo=1500))
-    if not q:
-        jobs.append(lambda: tlc_mc(ctx, 'ra_ramalhete_lost', 'Ramalhete_RA', dict(rq_ra, Progs='<-ProgLost'), invariants=INV_RW, view='mcview', constraints=['MsgBound5'], workers=8,
-                                   extra_files={'Ramalhete_RA.tla': modr}, tmo=2400, heap='24g'))
-    jobs.append(lambda: tlc_mc(ctx, 'ra_toggle_ramalhete_entry_cas_rlx', 'Ramalhete_RA', dict(rq_ra, Progs='<-ProgP1'), invariants=INV_RW, view='mcview', constraints=['MsgBound5'], workers=4,
-                               expect='violation', extra_files={'Ramalhete_RA.tla': toggle_module('Ramalhete', tabr, {'p_cas': 'rlx'})}, tmo=1500))
-    jobs.append(lambda: tlc_mc(ctx, 'ra_toggle_ramalhete_link_rlx', 'Ramalhete_RA', rq_ra, invariants=INV_RW, view='mcview', constraints=['MsgBound5'], workers=4,
-                               expect='violation', extra_files={'Ramalhete_RA.tla': toggle_module('Ramalhete', tabr, {'p_link': 'rlx'})}, tmo=1500))
-    jobs.append(lambda: tlc_mc(ctx, 'ra_toggle_ramalhete_take_rlx', 'Ramalhete_RA', dict(rq_ra, Progs='<-ProgP1'), invariants=INV_RW, view='mcview', constraints=['MsgBound5'], workers=4,
-                               expect='violation', extra_files={'Ramalhete_RA.tla': toggle_module('Ramalhete', tabr, {'q_ldacq': 'rlx', 'q_xchg': 'rlx'})}, tmo=1500))
-    # ---------------- kernels without step binding yet: hazard pointer publish / scan, michael-scott queue (orders as read from the code)
-    build(['reclaim'])
     HPF = 'basic_hp_thread_control_block::hazard_pointer::'
-    hp_sites = {'a_ld1': ('ld', 'hazard_pointer::guard_ptr::acquire', 0), 'a_ld2': ('ld', 'hazard_pointer::guard_ptr::acquire', 1), 'a_link': ('ld', HPF + 'get_link', 0),
-                'a_set': ('st', HPF + 'set_object', 0), 'a_fence': ('fence', HPF + 'set_object', 0), 'r_st': ('st', HPF + 'set_link', 0),
-                's_fence8': ('fence', 'hazard_pointer::thread_data::scan', 0), 's_fence9': ('fence', 'hazard_pointer::thread_data::scan', 1), 's_ld': ('ld', HPF + 'try_get_object', 0),
-                's_act': ('ld', 'thread_block_list::entry::is_active', 0), 'x_abandon': ('cas', 'thread_block_list::abandon_retired_nodes', 0),
-                'x_release': ('st', 'thread_block_list::entry::abandon', 0)}
-    tabh, missh = site_orders(ctx, 'HazardPointer', 'reclaim', ['hp3;;acq0:0,tch0,rst0,acq1:1;swp0:0,swp0:0,swp1:1'], hp_sites)
-    tabs_all['HazardPointer'] = tabh
-    bind['HazardPointer'] = (1, 1) if not missh else (0, 1)      # complete call-site table: a counterexample with it is reported
-    modh, _ = ord_module('HazardPointer', tabh)
-    hp_ra = RM.hp_consts(Weak=True, MaxOps=1, NNodes=2, K=1, NG=1, Ord='<-OrdX')
-    jobs.append(lambda: tlc_mc(ctx, 'ra_hazardpointer', 'HazardPointer_RA', hp_ra, invariants=['Safe', 'NoDataRace'], view='mcview', constraints=['MsgBound5'], workers=6, tmo=1500,
-                               extra_files={'HazardPointer_RA.tla': modh}))
-    hpt = '---- MODULE HazardPointer_RA ----\nEXTENDS HazardPointer\nOrdX == [OrdCode EXCEPT !.a_fence = "none"]\n====\n'
-    jobs.append(lambda: tlc_mc(ctx, 'ra_toggle_hp_publishfence_acqrel', 'HazardPointer_RA', hp_ra, invariants=['Safe', 'NoDataRace'], view='mcview', constraints=['MsgBound5'],
-                               workers=4, expect='violation', extra_files={'HazardPointer_RA.tla': toggle_module('HazardPointer', tabh, {'a_fence': 'ar'})}, tmo=1500))
-    jobs.append(lambda: tlc_mc(ctx, 'ra_toggle_hp_nopublishfence', 'HazardPointer_RA', dict(hp_ra, Ord='<-OrdX'), invariants=['Safe', 'NoDataRace'], view='mcview', constraints=['MsgBound5'],
-                               workers=4, expect='violation', extra_files={'HazardPointer_RA.tla': hpt}, tmo=1500))
-    # ---------------- MSQueue and HarrisMichael: order tables from their step bindings (the guarded loads happen inside the reclaimer: those labels keep OrdCode)
-    build(['queue_ms', 'hm'])
-    keepm = lambda r: r.get('fn', '').startswith('michael_scott_queue::') and 'node::' not in r.get('fn', '')
-    tabm, a, n = step_bind(ctx, 'MSQueue', 'queue_ms', ['ms/nebr0/I;;push1,push2,pop;pop,push3'], QM.ms_consts(NNodes=7, MaxPush=2, MaxPop=2), pb=2, max_exec=12 if q else 600, keep=keepm)
-    bind['MSQueue'] = (a, n); tabs_all['MSQueue'] = tabm
-    ctx.binding.append({'spec': 'MSQueue', 'orders_extracted': {k: sorted(v) for k, v in tabm.items() if v}})
-    modm, _ = ord_module('MSQueue', tabm)
-    ms_ra = QM.ms_consts(Weak=True, MaxPush=1, MaxPop=1, Ord='<-OrdX')
-    INV_MSW = ['NoDataRace', 'Conservation', 'MemorySafe']
-    jobs.append(lambda: tlc_mc(ctx, 'ra_msqueue', 'MSQueue_RA', ms_ra, invariants=INV_MSW, view='mcview', constraints=['MsgBound5'], workers=6, tmo=1500, extra_files={'MSQueue_RA.tla': modm}))
-    jobs.append(lambda: tlc_mc(ctx, 'ra_toggle_ms_link_rlx', 'MSQueue_RA', ms_ra, invariants=INV_MSW, view='mcview', constraints=['MsgBound5'], workers=4, expect='violation',
-                               extra_files={'MSQueue_RA.tla': toggle_module('MSQueue', tabm, {'p_link': 'rlx', 'q_acqn': 'rlx'})}, tmo=1500))
-    from props import hm_models as HMM
-    keeph = lambda r: r.get('fn', '').startswith('harris_michael_list_based_set::') and 'node::' not in r.get('fn', '')
-    tabhm, a, n = step_bind(ctx, 'HarrisMichael', 'hm', ['set/nebr0;emp1,emp3;emp2,era1;con2,era3'], HMM.hm_consts(NNodes=6, Keys0Set='={1, 3}', KeySet='={1, 2, 3}', MaxOps=3), pb=2,
-                            max_exec=40 if q else 600, keep=keeph)
-    bind['HarrisMichael'] = (a, n); tabs_all['HarrisMichael'] = tabhm
-    ctx.binding.append({'spec': 'HarrisMichael', 'orders_extracted': {k: sorted(v) for k, v in tabhm.items() if v}})
-    modhm, _ = ord_module('HarrisMichael', tabhm)
-    hm_ra = HMM.hm_consts(Weak=True, Ord='<-OrdX', MaxOps=1, NNodes=3, Keys0Set='={1}', KeySet='={1, 2}')
-    jobs.append(lambda: tlc_mc(ctx, 'ra_harrismichael', 'HarrisMichael_RA', hm_ra, invariants=['NoDataRace', 'MemorySafe'], view='mcview', constraints=['MsgBound5'], workers=6, tmo=1500,
-                               extra_files={'HarrisMichael_RA.tla': modhm}))
-    jobs.append(lambda: tlc_mc(ctx, 'ra_toggle_hm_insert_cas_rlx', 'HarrisMichael_RA', hm_ra, invariants=['NoDataRace', 'MemorySafe'], view='mcview', constraints=['MsgBound5'], workers=4,
-                               expect='violation', extra_files={'HarrisMichael_RA.tla': toggle_module('HarrisMichael', tabhm, {'x_cas': 'rlx', 'f_acq': 'rlx'})}, tmo=1500))
-    # ---------------- thread_block_list: plain next_entry / retired-node links published by release CASes (orders as written in the code)
-    TB = 'thread_block_list::'
-    tb_sites = {'a_ldh': ('ld', TB + 'adopt_or_create_entry', 0), 'a_ldst': ('ld', TB + 'entry::try_adopt', 0), 'a_cas': ('cas', TB + 'entry::try_adopt', 0),
-                'a_init': ('st', TB + 'adopt_or_create_entry', 0), 'a_ldh2': ('ld', TB + 'add_entry', 0), 'a_push': ('cas', TB + 'add_entry', 0),
-                'x_rel': ('st', TB + 'entry::abandon', 0), 'b_ld': ('ld', TB + 'abandon_retired_nodes', 0), 'b_cas': ('cas', TB + 'abandon_retired_nodes', 0),
-                'd_ld': ('ld', TB + 'adopt_abandoned_retired_nodes', 0)}
-    tabt, misst = site_orders(ctx, 'ThreadBlockList', 'reclaim', ['hp3;;acq0:0,tch0,rst0,acq1:1;swp0:0,swp0:0,swp1:1', 'hp3;;swp0:0,swp1:1;@0:acq0:0,swp0:0;swp1:1'], tb_sites)
-    tabs_all['ThreadBlockList'] = tabt; bind['ThreadBlockList'] = (1, 1) if not misst else (0, 1)
-    modt, _ = ord_module('ThreadBlockList', tabt)
-    tb_ra = RM.tb_consts(Weak=True, Lives=1, NNodes=2, MaxRetire=1, Ord='<-OrdX')
-    INV_TBW = ['NoDataRace', 'Exclusive', 'NoNodeLost']
-    jobs.append(lambda: tlc_mc(ctx, 'ra_threadblocklist', 'ThreadBlockList_RA', tb_ra, invariants=INV_TBW, view='mcview', constraints=['MsgBound5'], workers=4, tmo=1200,
-                               extra_files={'ThreadBlockList_RA.tla': modt}))
-    for nm, chg in (('push_rlx', '!.a_push = "rlx"'), ('head_load_rlx', '!.a_ldh = "rlx"'), ('abandon_cas_rlx', '!.b_cas = "rlx"')):
-        tbt = '---- MODULE ThreadBlockList_RA ----\nEXTENDS ThreadBlockList\nOrdX == [OrdCode EXCEPT %s]\n====\n' % chg
-        jobs.append(lambda nm=nm, tbt=tbt: tlc_mc(ctx, 'ra_toggle_tbl_' + nm, 'ThreadBlockList_RA', dict(tb_ra, Ord='<-OrdX'), invariants=INV_TBW, view='mcview', constraints=['MsgBound5'],
-                                                    workers=3, expect='violation', extra_files={'ThreadBlockList_RA.tla': tbt}, tmo=1200))
-    # ---------------- dynamic hazard-pointer blocks: initialised slots and the plain block->next published by a release store of hp_block
-    DHP = 'dynamic_hp_thread_control_block::'
-    hd_sites = {'a_ld1': ('ld', 'hazard_pointer::guard_ptr::acquire', 0), 'a_ld2': ('ld', 'hazard_pointer::guard_ptr::acquire', 1), 'a_link': ('ld', HPF + 'get_link', 0),
-                'a_pub': ('st', HPF + 'set_object', 0), 'a_fence': ('fence', HPF + 'set_object', 0), 'b_init': ('st', HPF + 'set_link', 0),
-                'b_ldh': ('ld', DHP + 'allocate_new_hazard_pointer_block', 0), 'b_pub': ('st', DHP + 'allocate_new_hazard_pointer_block', 0), 's_ldb': ('ld', DHP + 'next_block', 0),
-                's_fence1': ('fence', 'hazard_pointer::thread_data::scan', 0), 's_fence2': ('fence', 'hazard_pointer::thread_data::scan', 1), 's_ld': ('ld', HPF + 'try_get_object', 0)}
-    tabd, missd = site_orders(ctx, 'HPDynamic', 'reclaim', ['hpd1;;acq0:0,acq1:1,acq2:2,tch0,tch2;swp0:0,swp1:1,swp2:2'], hd_sites)
-    tabs_all['HPDynamic'] = tabd; bind['HPDynamic'] = (1, 1) if not missd else (0, 1)
-    modd, _ = ord_module('HPDynamic', tabd)
-    hd_ra = RM.hd_consts(Weak=True, NBlocks=1, NCells=2, NObj=3, MaxScans=1, Ord='<-OrdX')
-    INV_HDW = ['NoDataRace', 'Safe', 'SlotsIntact']
-    jobs.append(lambda: tlc_mc(ctx, 'ra_hpdynamic', 'HPDynamic_RA', hd_ra, invariants=INV_HDW, constraints=['MsgBound5'], workers=4, tmo=1200, extra_files={'HPDynamic_RA.tla': modd}))
-    for nm, chg in (('publish_rlx', '!.b_pub = "rlx"'), ('block_load_rlx', '!.s_ldb = "rlx"'), ('no_publish_fence', '!.a_fence = "none"')):
-        hdt = '---- MODULE HPDynamic_RA ----\nEXTENDS HPDynamic\nOrdX == [OrdCode EXCEPT %s]\n====\n' % chg
-        jobs.append(lambda nm=nm, hdt=hdt: tlc_mc(ctx, 'ra_toggle_hpdyn_' + nm, 'HPDynamic_RA', dict(hd_ra, Ord='<-OrdX'), invariants=INV_HDW, constraints=['MsgBound5'],
-                                                    workers=3, expect='violation', extra_files={'HPDynamic_RA.tla': hdt}, tmo=1200))
+    build(['deque', 'seqlock', 'leftright', 'queue_bounded', 'queue_ram', 'reclaim', 'queue_ms', 'hm'])
+
+    def _sec_0():
+        # ---------------- ChaseLev
+        cl_step = P12.mc_consts(Cap0=2, MaxCap=8, Start=2, MaxPush=4, MaxPop=4, MaxSteal=4, NThieves=1, StaleCapOK=True)
+        tab, a, n = step_bind(ctx, 'ChaseLev', 'deque', ['g2;push40,steal,push41,steal;push1,push2,push3,pop;steal,steal'], cl_step)
+        bind['ChaseLev'] = (a, n); tabs_all['ChaseLev'] = tab
+        ctx.binding.append({'spec': 'ChaseLev', 'orders_extracted': {k: sorted(v) for k, v in tab.items() if v}})
+        cl_ra = P12.mc_consts(Weak=True, Ord='<-OrdX', Cap0=2, MaxCap=2, Start=2, MaxPush=2, MaxPop=1, MaxSteal=2, StaleCapOK=True)
+        mod, amb = ord_module('ChaseLev', tab)
+        INV_CL = ['NoDataRace', 'Conservation', 'ConservedAtEnd']
+        jobs.append(lambda: tlc_mc(ctx, 'ra_chaselev', 'ChaseLev_RA', cl_ra, invariants=INV_CL, view='mcview', constraints=['MsgBound5'], workers=6, extra_files={'ChaseLev_RA.tla': mod}))
+        jobs.append(lambda: tlc_mc(ctx, 'ra_chaselev_start0', 'ChaseLev_RA', dict(cl_ra, Start=0, MaxPop=2, MaxSteal=1), invariants=INV_CL, view='mcview', constraints=['MsgBound5'], workers=6,
+                                   extra_files={'ChaseLev_RA.tla': mod}))
+        jobs.append(lambda: tlc_mc(ctx, 'ra_toggle_chaselev_bottom_rlx', 'ChaseLev_RA', cl_ra, invariants=INV_CL, view='mcview', constraints=['MsgBound5'], workers=4, expect='violation',
+                                   extra_files={'ChaseLev_RA.tla': toggle_module('ChaseLev', tab, {'pu_bot': 'rlx'})}))
+        jobs.append(lambda: tlc_mc(ctx, 'ra_toggle_chaselev_no_sc', 'ChaseLev_RA', cl_ra, invariants=INV_CL, view='mcview', constraints=['MsgBound5'], workers=4, expect='violation',
+                                   extra_files={'ChaseLev_RA.tla': toggle_module('ChaseLev', tab, {'po_bs': 'rel', 'po_t2': 'acq'})}))
+
+    def _sec_1():
+        # ---------------- Seqlock
+        sl_step = P14.mc_consts(Slots=2, NW=2, CW=2, NWriters=1, NReaders=1, MaxWrites=4, MaxLoads=4)
+        tabs, a, n = step_bind(ctx, 'Seqlock', 'seqlock', ['s2b16;;store2,update10,store3;load,load'], sl_step)
+        bind['Seqlock'] = (a, n); tabs_all['Seqlock'] = tabs
+        ctx.binding.append({'spec': 'Seqlock', 'orders_extracted': {k: sorted(v) for k, v in tabs.items() if v}})
+        mods, _ = ord_module('Seqlock', tabs)
+        sl_ra = P14.mc_consts(Weak=True, Ord='<-OrdX', Slots=2, NW=2, CW=2, MaxWrites=2, MaxLoads=1)
+        jobs.append(lambda: tlc_mc(ctx, 'ra_seqlock', 'Seqlock_RA', sl_ra, invariants=['NoTornLoad'], view='mcview', constraints=['MsgBound5'], workers=6, extra_files={'Seqlock_RA.tla': mods}, tmo=1200))
+        jobs.append(lambda: tlc_mc(ctx, 'ra_seqlock_1slot', 'Seqlock_RA', dict(sl_ra, Slots=1, MaxWrites=1), invariants=['NoTornLoad'], view='mcview', constraints=['MsgBound5'], workers=6,
+                                   extra_files={'Seqlock_RA.tla': mods}, tmo=1200))
+        jobs.append(lambda: tlc_mc(ctx, 'ra_toggle_seqlock_nofence', 'Seqlock_RA', sl_ra, invariants=['NoTornLoad'], view='mcview', constraints=['MsgBound5'], workers=4, expect='violation',
+                                   extra_files={'Seqlock_RA.tla': toggle_module('Seqlock', tabs, {'rd_fence': 'none'})}, tmo=1200))
+        jobs.append(lambda: tlc_mc(ctx, 'ra_toggle_seqlock_release_rlx', 'Seqlock_RA', sl_ra, invariants=['NoTornLoad'], view='mcview', constraints=['MsgBound5'], workers=4, expect='violation',
+                                   extra_files={'Seqlock_RA.tla': toggle_module('Seqlock', tabs, {'sd_fence': 'none', 'rl_st': 'rlx'})}, tmo=1200))
+
+    def _sec_2():
+        # ---------------- LeftRight
+        lr_step = P13.mc_consts(NWriters=1, NReaders=1, MaxUpdates=4, MaxReads=4)
+        tabl, a, n = step_bind(ctx, 'LeftRight', 'leftright', ['lr;;update10,update10;load,load'], lr_step)
+        bind['LeftRight'] = (a, n); tabs_all['LeftRight'] = tabl
+        ctx.binding.append({'spec': 'LeftRight', 'orders_extracted': {k: sorted(v) for k, v in tabl.items() if v}})
+        modl, _ = ord_module('LeftRight', tabl)
+        lr_ra = P13.mc_consts(Weak=True, Ord='<-OrdX', MaxUpdates=1, MaxReads=1)
+        jobs.append(lambda: tlc_mc(ctx, 'ra_leftright', 'LeftRight_RA', lr_ra, invariants=['NoDataRace', 'NoMixture'], view='mcview', constraints=['MsgBound5'], workers=6,
+                                   extra_files={'LeftRight_RA.tla': modl}, tmo=1500))
+        jobs.append(lambda: tlc_mc(ctx, 'ra_toggle_leftright_depart_rlx', 'LeftRight_RA', lr_ra, invariants=['NoDataRace', 'NoMixture'], view='mcview', constraints=['MsgBound5'], workers=4,
+                                   expect='violation', extra_files={'LeftRight_RA.tla': toggle_module('LeftRight', tabl, {'rd_dep': 'rlx', 'up_unlock': 'rlx'})}, tmo=1500))
+
+    def _sec_3():
+        # ---------------- VyukovBounded
+        vb_step = QM.vy_consts(Cap=2, MaxPush=4, MaxPop=4, AllowWeak=True)
+        tabv, a, n = step_bind(ctx, 'VyukovBounded', 'queue_bounded', ['vyu2/-/I;;push1,push2,wpush3;pop,wpop,pop'], dict(vb_step, AbsStep='<-QStep'))
+        bind['VyukovBounded'] = (a, n); tabs_all['VyukovBounded'] = tabv
+        ctx.binding.append({'spec': 'VyukovBounded', 'orders_extracted': {k: sorted(v) for k, v in tabv.items() if v}})
+        modv, _ = ord_module('VyukovBounded', tabv)
+        vb_ra = QM.vy_consts(Weak=True, Ord='<-OrdX', MaxPush=2 if not q else 1, MaxPop=1)
+        jobs.append(lambda: tlc_mc(ctx, 'ra_vyukov', 'VyukovBounded_RA', vb_ra, invariants=['NoDataRace', 'Conservation'], view='mcview', constraints=['MsgBound5'], workers=6,
+                                   extra_files={'VyukovBounded_RA.tla': modv}, tmo=1500))
+        jobs.append(lambda: tlc_mc(ctx, 'ra_toggle_vyukov_publish_rlx', 'VyukovBounded_RA', vb_ra, invariants=['NoDataRace', 'Conservation'], view='mcview', constraints=['MsgBound5'], workers=4,
+                                   expect='violation', extra_files={'VyukovBounded_RA.tla': toggle_module('VyukovBounded', tabv, {'u_pub': 'rlx'})}, tmo=1500))
+
+    def _sec_4():
+        # ---------------- Ramalhete (step binding: index words and entries exactly)
+        build(['queue_ram'])
+        keepr = lambda r: r.get('fn', '').startswith('ramalhete_queue::') and 'node::' not in r.get('fn', '')
+        tabr, a, n = step_bind(ctx, 'Ramalhete', 'queue_ram', ['ram10/nebr0/P;;push1,push2,pop;pop,push3'], QM.rq_consts(Progs='<-ProgStep', NNodes=7), pb=2, max_exec=100 if q else 2000,
+                               keep=keepr)
+        bind['Ramalhete'] = (a, n); tabs_all['Ramalhete'] = tabr
+        ctx.binding.append({'spec': 'Ramalhete', 'orders_extracted': {k: sorted(v) for k, v in tabr.items() if v}})
+        modr, _ = ord_module('Ramalhete', tabr)
+        INV_RW = ['NoDataRace', 'Conservation', 'Ownership', 'ConservedAtEnd']
+        rq_ra = QM.rq_consts(Weak=True, Ord='<-OrdX', Progs='<-ProgPP')
+        jobs.append(lambda: tlc_mc(ctx, 'ra_ramalhete', 'Ramalhete_RA', rq_ra, invariants=INV_RW, view='mcview', constraints=['MsgBound5'], workers=6, extra_files={'Ramalhete_RA.tla': modr}, tmo=1500))
+        if not q:
+            jobs.append(lambda: tlc_mc(ctx, 'ra_ramalhete_lost', 'Ramalhete_RA', dict(rq_ra, Progs='<-ProgLost'), invariants=INV_RW, view='mcview', constraints=['MsgBound5'], workers=8,
+                                       extra_files={'Ramalhete_RA.tla': modr}, tmo=2400, heap='24g'))
+        jobs.append(lambda: tlc_mc(ctx, 'ra_toggle_ramalhete_entry_cas_rlx', 'Ramalhete_RA', dict(rq_ra, Progs='<-ProgP1'), invariants=INV_RW, view='mcview', constraints=['MsgBound5'], workers=4,
+                                   expect='violation', extra_files={'Ramalhete_RA.tla': toggle_module('Ramalhete', tabr, {'p_cas': 'rlx'})}, tmo=1500))
+        jobs.append(lambda: tlc_mc(ctx, 'ra_toggle_ramalhete_link_rlx', 'Ramalhete_RA', rq_ra, invariants=INV_RW, view='mcview', constraints=['MsgBound5'], workers=4,
+                                   expect='violation', extra_files={'Ramalhete_RA.tla': toggle_module('Ramalhete', tabr, {'p_link': 'rlx'})}, tmo=1500))
+        jobs.append(lambda: tlc_mc(ctx, 'ra_toggle_ramalhete_take_rlx', 'Ramalhete_RA', dict(rq_ra, Progs='<-ProgP1'), invariants=INV_RW, view='mcview', constraints=['MsgBound5'], workers=4,
+                                   expect='violation', extra_files={'Ramalhete_RA.tla': toggle_module('Ramalhete', tabr, {'q_ldacq': 'rlx', 'q_xchg': 'rlx'})}, tmo=1500))
+
+    def _sec_5():
+        # ---------------- kernels without step binding yet: hazard pointer publish / scan, michael-scott queue (orders as read from the code)
+        build(['reclaim'])
+        hp_sites = {'a_ld1': ('ld', 'hazard_pointer::guard_ptr::acquire', 0), 'a_ld2': ('ld', 'hazard_pointer::guard_ptr::acquire', 1), 'a_link': ('ld', HPF + 'get_link', 0),
+                    'a_set': ('st', HPF + 'set_object', 0), 'a_fence': ('fence', HPF + 'set_object', 0), 'r_st': ('st', HPF + 'set_link', 0),
+                    's_fence8': ('fence', 'hazard_pointer::thread_data::scan', 0), 's_fence9': ('fence', 'hazard_pointer::thread_data::scan', 1), 's_ld': ('ld', HPF + 'try_get_object', 0),
+                    's_act': ('ld', 'thread_block_list::entry::is_active', 0), 'x_abandon': ('cas', 'thread_block_list::abandon_retired_nodes', 0),
+                    'x_release': ('st', 'thread_block_list::entry::abandon', 0)}
+        tabh, missh = site_orders(ctx, 'HazardPointer', 'reclaim', ['hp3;;acq0:0,tch0,rst0,acq1:1;swp0:0,swp0:0,swp1:1'], hp_sites)
+        tabs_all['HazardPointer'] = tabh
+        bind['HazardPointer'] = (1, 1) if not missh else (0, 1)      # complete call-site table: a counterexample with it is reported
+        modh, _ = ord_module('HazardPointer', tabh)
+        hp_ra = RM.hp_consts(Weak=True, MaxOps=1, NNodes=2, K=1, NG=1, Ord='<-OrdX')
+        jobs.append(lambda: tlc_mc(ctx, 'ra_hazardpointer', 'HazardPointer_RA', hp_ra, invariants=['Safe', 'NoDataRace'], view='mcview', constraints=['MsgBound5'], workers=6, tmo=1500,
+                                   extra_files={'HazardPointer_RA.tla': modh}))
+        hpt = '---- MODULE HazardPointer_RA ----\nEXTENDS HazardPointer\nOrdX == [OrdCode EXCEPT !.a_fence = "none"]\n====\n'
+        jobs.append(lambda: tlc_mc(ctx, 'ra_toggle_hp_publishfence_acqrel', 'HazardPointer_RA', hp_ra, invariants=['Safe', 'NoDataRace'], view='mcview', constraints=['MsgBound5'],
+                                   workers=4, expect='violation', extra_files={'HazardPointer_RA.tla': toggle_module('HazardPointer', tabh, {'a_fence': 'ar'})}, tmo=1500))
+        jobs.append(lambda: tlc_mc(ctx, 'ra_toggle_hp_nopublishfence', 'HazardPointer_RA', dict(hp_ra, Ord='<-OrdX'), invariants=['Safe', 'NoDataRace'], view='mcview', constraints=['MsgBound5'],
+                                   workers=4, expect='violation', extra_files={'HazardPointer_RA.tla': hpt}, tmo=1500))
+
+    def _sec_6():
+        # ---------------- MSQueue and HarrisMichael: order tables from their step bindings (the guarded loads happen inside the reclaimer: those labels keep OrdCode)
+        build(['queue_ms', 'hm'])
+        keepm = lambda r: r.get('fn', '').startswith('michael_scott_queue::') and 'node::' not in r.get('fn', '')
+        tabm, a, n = step_bind(ctx, 'MSQueue', 'queue_ms', ['ms/nebr0/I;;push1,push2,pop;pop,push3'], QM.ms_consts(NNodes=7, MaxPush=2, MaxPop=2), pb=2, max_exec=12 if q else 600, keep=keepm)
+        bind['MSQueue'] = (a, n); tabs_all['MSQueue'] = tabm
+        ctx.binding.append({'spec': 'MSQueue', 'orders_extracted': {k: sorted(v) for k, v in tabm.items() if v}})
+        modm, _ = ord_module('MSQueue', tabm)
+        ms_ra = QM.ms_consts(Weak=True, MaxPush=1, MaxPop=1, Ord='<-OrdX')
+        INV_MSW = ['NoDataRace', 'Conservation', 'MemorySafe']
+        jobs.append(lambda: tlc_mc(ctx, 'ra_msqueue', 'MSQueue_RA', ms_ra, invariants=INV_MSW, view='mcview', constraints=['MsgBound5'], workers=6, tmo=1500, extra_files={'MSQueue_RA.tla': modm}))
+        jobs.append(lambda: tlc_mc(ctx, 'ra_toggle_ms_link_rlx', 'MSQueue_RA', ms_ra, invariants=INV_MSW, view='mcview', constraints=['MsgBound5'], workers=4, expect='violation',
+                                   extra_files={'MSQueue_RA.tla': toggle_module('MSQueue', tabm, {'p_link': 'rlx', 'q_acqn': 'rlx'})}, tmo=1500))
+        from props import hm_models as HMM
+        keeph = lambda r: r.get('fn', '').startswith('harris_michael_list_based_set::') and 'node::' not in r.get('fn', '')
+        tabhm, a, n = step_bind(ctx, 'HarrisMichael', 'hm', ['set/nebr0;emp1,emp3;emp2,era1;con2,era3'], HMM.hm_consts(NNodes=6, Keys0Set='={1, 3}', KeySet='={1, 2, 3}', MaxOps=3), pb=2,
+                                max_exec=40 if q else 600, keep=keeph)
+        bind['HarrisMichael'] = (a, n); tabs_all['HarrisMichael'] = tabhm
+        ctx.binding.append({'spec': 'HarrisMichael', 'orders_extracted': {k: sorted(v) for k, v in tabhm.items() if v}})
+        modhm, _ = ord_module('HarrisMichael', tabhm)
+        hm_ra = HMM.hm_consts(Weak=True, Ord='<-OrdX', MaxOps=1, NNodes=3, Keys0Set='={1}', KeySet='={1, 2}')
+        jobs.append(lambda: tlc_mc(ctx, 'ra_harrismichael', 'HarrisMichael_RA', hm_ra, invariants=['NoDataRace', 'MemorySafe'], view='mcview', constraints=['MsgBound5'], workers=6, tmo=1500,
+                                   extra_files={'HarrisMichael_RA.tla': modhm}))
+        jobs.append(lambda: tlc_mc(ctx, 'ra_toggle_hm_insert_cas_rlx', 'HarrisMichael_RA', hm_ra, invariants=['NoDataRace', 'MemorySafe'], view='mcview', constraints=['MsgBound5'], workers=4,
+                                   expect='violation', extra_files={'HarrisMichael_RA.tla': toggle_module('HarrisMichael', tabhm, {'x_cas': 'rlx', 'f_acq': 'rlx'})}, tmo=1500))
+
+    def _sec_7():
+        # ---------------- thread_block_list: plain next_entry / retired-node links published by release CASes (orders as written in the code)
+        TB = 'thread_block_list::'
+        tb_sites = {'a_ldh': ('ld', TB + 'adopt_or_create_entry', 0), 'a_ldst': ('ld', TB + 'entry::try_adopt', 0), 'a_cas': ('cas', TB + 'entry::try_adopt', 0),
+                    'a_init': ('st', TB + 'adopt_or_create_entry', 0), 'a_ldh2': ('ld', TB + 'add_entry', 0), 'a_push': ('cas', TB + 'add_entry', 0),
+                    'x_rel': ('st', TB + 'entry::abandon', 0), 'b_ld': ('ld', TB + 'abandon_retired_nodes', 0), 'b_cas': ('cas', TB + 'abandon_retired_nodes', 0),
+                    'd_ld': ('ld', TB + 'adopt_abandoned_retired_nodes', 0)}
+        tabt, misst = site_orders(ctx, 'ThreadBlockList', 'reclaim', ['hp3;;acq0:0,tch0,rst0,acq1:1;swp0:0,swp0:0,swp1:1', 'hp3;;swp0:0,swp1:1;@0:acq0:0,swp0:0;swp1:1'], tb_sites)
+        tabs_all['ThreadBlockList'] = tabt; bind['ThreadBlockList'] = (1, 1) if not misst else (0, 1)
+        modt, _ = ord_module('ThreadBlockList', tabt)
+        tb_ra = RM.tb_consts(Weak=True, Lives=1, NNodes=2, MaxRetire=1, Ord='<-OrdX')
+        INV_TBW = ['NoDataRace', 'Exclusive', 'NoNodeLost']
+        jobs.append(lambda: tlc_mc(ctx, 'ra_threadblocklist', 'ThreadBlockList_RA', tb_ra, invariants=INV_TBW, view='mcview', constraints=['MsgBound5'], workers=4, tmo=1200,
+                                   extra_files={'ThreadBlockList_RA.tla': modt}))
+        for nm, chg in (('push_rlx', '!.a_push = "rlx"'), ('head_load_rlx', '!.a_ldh = "rlx"'), ('abandon_cas_rlx', '!.b_cas = "rlx"')):
+            tbt = '---- MODULE ThreadBlockList_RA ----\nEXTENDS ThreadBlockList\nOrdX == [OrdCode EXCEPT %s]\n====\n' % chg
+            jobs.append(lambda nm=nm, tbt=tbt: tlc_mc(ctx, 'ra_toggle_tbl_' + nm, 'ThreadBlockList_RA', dict(tb_ra, Ord='<-OrdX'), invariants=INV_TBW, view='mcview', constraints=['MsgBound5'],
+                                                        workers=3, expect='violation', extra_files={'ThreadBlockList_RA.tla': tbt}, tmo=1200))
+
+    def _sec_8():
+        # ---------------- dynamic hazard-pointer blocks: initialised slots and the plain block->next published by a release store of hp_block
+        DHP = 'dynamic_hp_thread_control_block::'
+        hd_sites = {'a_ld1': ('ld', 'hazard_pointer::guard_ptr::acquire', 0), 'a_ld2': ('ld', 'hazard_pointer::guard_ptr::acquire', 1), 'a_link': ('ld', HPF + 'get_link', 0),
+                    'a_pub': ('st', HPF + 'set_object', 0), 'a_fence': ('fence', HPF + 'set_object', 0), 'b_init': ('st', HPF + 'set_link', 0),
+                    'b_ldh': ('ld', DHP + 'allocate_new_hazard_pointer_block', 0), 'b_pub': ('st', DHP + 'allocate_new_hazard_pointer_block', 0), 's_ldb': ('ld', DHP + 'next_block', 0),
+                    's_fence1': ('fence', 'hazard_pointer::thread_data::scan', 0), 's_fence2': ('fence', 'hazard_pointer::thread_data::scan', 1), 's_ld': ('ld', HPF + 'try_get_object', 0)}
+        tabd, missd = site_orders(ctx, 'HPDynamic', 'reclaim', ['hpd1;;acq0:0,acq1:1,acq2:2,tch0,tch2;swp0:0,swp1:1,swp2:2'], hd_sites)
+        tabs_all['HPDynamic'] = tabd; bind['HPDynamic'] = (1, 1) if not missd else (0, 1)
+        modd, _ = ord_module('HPDynamic', tabd)
+        hd_ra = RM.hd_consts(Weak=True, NBlocks=1, NCells=2, NObj=3, MaxScans=1, Ord='<-OrdX')
+        INV_HDW = ['NoDataRace', 'Safe', 'SlotsIntact']
+        jobs.append(lambda: tlc_mc(ctx, 'ra_hpdynamic', 'HPDynamic_RA', hd_ra, invariants=INV_HDW, constraints=['MsgBound5'], workers=4, tmo=1200, extra_files={'HPDynamic_RA.tla': modd}))
+        for nm, chg in (('publish_rlx', '!.b_pub = "rlx"'), ('block_load_rlx', '!.s_ldb = "rlx"'), ('no_publish_fence', '!.a_fence = "none"')):
+            hdt = '---- MODULE HPDynamic_RA ----\nEXTENDS HPDynamic\nOrdX == [OrdCode EXCEPT %s]\n====\n' % chg
+            jobs.append(lambda nm=nm, hdt=hdt: tlc_mc(ctx, 'ra_toggle_hpdyn_' + nm, 'HPDynamic_RA', dict(hd_ra, Ord='<-OrdX'), invariants=INV_HDW, constraints=['MsgBound5'],
+                                                        workers=3, expect='violation', extra_files={'HPDynamic_RA.tla': hdt}, tmo=1200))
+
+    # the sections (binding + order extraction of one spec each) are independent: they run side by side, then all model runs
+    run_parallel([_sec_0, _sec_1, _sec_2, _sec_3, _sec_4, _sec_5, _sec_6, _sec_7, _sec_8], maxw=6)
+    tab = tabs_all['ChaseLev']
     run_parallel(jobs, maxw=4)
     race_sweep(ctx)
     # A counterexample of the weak-memory model instantiated with the order table EXTRACTED from this tree is reported if the step-level
